@@ -1,11 +1,23 @@
-(* Reads case lines "<id> <kind> ..." from the file given as argv[1] (or stdin) and prints
-   "<id> <observation>" per case.  A failure to handle a case prints "<id> MODEL-ERROR <msg>". *)
-let () =
-  let ic = if Array.length Sys.argv > 1 then open_in Sys.argv.(1) else stdin in
-  (try
+(* Model mode:   driver <cases>            prints "<id> <observation> # <ghost>" per case line "<id> <kind> ...".
+   Oracle mode:  driver --oracle <P> <f>   reads "<id> <kind> <case...> @@ <impl observation>", prints "<id> pass|fail|skip ...". *)
+let each_line ic f =
+  try
     while true do
       let line = input_line ic in
-      if line <> "" && line.[0] <> '#' then begin
+      if line <> "" && line.[0] <> '#' then f line
+    done
+  with End_of_file -> ()
+
+let () =
+  if Array.length Sys.argv > 3 && Sys.argv.(1) = "--oracle" then begin
+    let prop = Sys.argv.(2) in
+    each_line (open_in Sys.argv.(3)) (fun line ->
+        let id = List.hd (String.split_on_char ' ' line) in
+        let out = try Oracle_driver.run_line prop line with e -> "skip oracle-error " ^ Printexc.to_string e in
+        print_string id; print_char ' '; print_endline out)
+  end else begin
+    let ic = if Array.length Sys.argv > 1 then open_in Sys.argv.(1) else stdin in
+    each_line ic (fun line ->
         match String.split_on_char ' ' line with
         | id :: kind :: rest ->
           let out =
@@ -15,7 +27,5 @@ let () =
                | _ -> "MODEL-ERROR unknown kind " ^ kind)
             with e -> "MODEL-ERROR " ^ Printexc.to_string e in
           print_string id; print_char ' '; print_endline out
-        | _ -> ()
-      end
-    done
-  with End_of_file -> ())
+        | _ -> ())
+  end
